@@ -9,6 +9,9 @@ mod c09;
 mod c10;
 mod c11;
 mod c12;
+mod c14;
+mod c15;
+mod iogen;
 mod distmodel;
 mod c19;
 mod common;
@@ -78,6 +81,8 @@ fn main() {
         "C11" => (c11::run(&cfg), c11::RULE, c11::REQUIRED),
         "C12" => (c12::run12(&cfg), c12::RULE12, c12::REQUIRED12),
         "C13" => (c12::run13(&cfg), c12::RULE13, c12::REQUIRED13),
+        "C14" => (c14::run(&cfg), c14::RULE, c14::REQUIRED),
+        "C15" => (c15::run(&cfg), c15::RULE, c15::REQUIRED),
         "C19" => (c19::run(&cfg), c19::RULE, c19::REQUIRED),
         _ => usage(),
     };
